@@ -190,7 +190,7 @@ class ModeNotHonoured(RuntimeError):
     multiprocessing mode (or the other way round): the code under test ignored the setting (a verdict for C16)."""
 
 
-def make_store(root, cfg=None, real_primitives=False, mp_mode=False, mp_env=False):
+def make_store(root, cfg=None, real_primitives=False, mp_mode=False, mp_env=False, int_as_str=False):
     """A FileHashStore on `root`.  By default it is constructed over the scheduler-aware Lock / Condition
     shims (sched.py): semantics are unchanged for single-threaded use, but a call that would WAIT (on an
     identifier some earlier call left locked) raises sched.WouldBlockForever instead of hanging the harness."""
@@ -216,8 +216,14 @@ def make_store(root, cfg=None, real_primitives=False, mp_mode=False, mp_env=Fals
             raise ModeNotHonoured("USE_MULTIPROCESSING=True was set before the store was initialised, the store runs in threading mode")
         return store
     sched.set_mode("shim")
+    props = cfg.props(root)
+    if int_as_str:      # integers given as integer-like strings (what a caller that reads its configuration from the environment passes)
+        props.update(store_depth=str(props["store_depth"]), store_width=str(props["store_width"]))
     with sched.shimmed_primitives(mp_mode=mp_mode):
-        store = hs().FileHashStore(cfg.props(root))
+        store = hs().FileHashStore(props)
+    # the caller goes on using its dictionary for other things: the store must have taken what it needs
+    props.update(store_path=str(root) + "-not-this-one", store_depth=1, store_width=1, store_algorithm="MD5",
+                 store_metadata_namespace="urn:scrambled-after-the-store-was-opened")
     if bool(getattr(store, "use_multiprocessing", mp_mode)) != bool(mp_mode):
         # (sched.shimmed_primitives sets / clears the variable around the constructor - checked by tools/selftest.py on the
         # pinned tree; a mismatch here means the code under test did not look at the environment when it was initialised)
